@@ -517,7 +517,7 @@ func init() {
 	core.Register(&core.Prop{
 		ID:        "C18",
 		Technique: "differential monitor of the plenccore primitives against an independent varint/zig-zag reference and protowire, over boundary-exhaustive and seeded random values",
-		Rule: "values: every 2^k+d (d in -2..2), its negation, complement and zig-zag images; seeded random 64-bit values of every bit length; thorough additionally ALL 2^32 32-bit values and their <<32 and negated images. " +
+		Rule: "tags: AppendTag into nil, roomy and empty destinations, twenty bytes appended onto every result, the next twenty tags asked for again. Values: every 2^k+d (d in -2..2), its negation, complement and zig-zag images; seeded random 64-bit values of every bit length; thorough additionally ALL 2^32 32-bit values and their <<32 and negated images. " +
 			"boundary values are appended to destinations with 0-3 content bytes x 0-11 spare bytes. tags: all wire types x a dense index range, every 61st and 8191st index beyond it and the boundaries to 2^28, each read back from an exact buffer and followed by 1, 3 and 9 more bytes. Skip: model-built fields of every wire type (lengths and counts one time in four as longer-than-necessary varints) with trailing bytes, every truncation class, and random hostile byte strings for all 8 wire-type codes. " +
 			"distinct_nontrivial counts distinct values / fields checked outside the dense sweeps (a value is non-trivial if it needs more than one byte or a field has non-zero length)",
 		Assume:     []string{"encoding/binary.Uvarint semantics (plenccore.ReadVarUint delegates to it)", "protowire v1.26.0 as second reference"},
